@@ -45,8 +45,19 @@ MANUAL_DEMO = {
     "<auto::Sheets as ReaderRef>::worksheet_range_ref": "kf_c06_sheets_worksheet_range_ref_is_total",
 }
 
+# sites that appeared after the triage run (e.g. through a fix: commit that follows the surrounding unchecked style):
+# fn -> [(key, demonstration)]
+LATER = {
+    "xlsb::parse_formula": [
+        ("xlsb::parse_formula|R-INDEX|[..b] 2 of sub(sub(arg1))", "kf_c06_xlsb_formula_tokens_truncated: token 0x19 0x04 followed by 0 or 1 payload bytes panics at the cOffset read (fix 5cb8b00 reads it as unchecked as its neighbours)"),
+        ("xlsb::parse_formula|R-INDEX|[a..] 2*src16+4 of sub(sub(arg1))", "kf_c06_xlsb_formula_tokens_truncated: token 0x19 0x04 with cOffset 0x0505 and no jump table panics at the skip"),
+    ],
+}
 audited, findings, leftovers = [], [], []
 for fn, keys in groups.items():
+    keys = list(keys) + [k for k, _ in LATER.get(fn, [])]
+    for k, d in LATER.get(fn, []):
+        direct[k] = {"demo_test": d.split(":")[0], "case": d, "message": ""}
     open_keys = []
     for k in keys:
         hit = None
